@@ -40,12 +40,17 @@ CHECKS['C07'] = dict(
     technique='machine-checked invariant proof (Coq) over a hand-written model + exhaustive small-scope differential correspondence',
 )
 CHECKS['C08'] = dict(
-    text=('Proof over the same Pool.run model: PoolError.partial_results and every normal return hold only genuine results, at most one per '
-          'input, and every input is answered or accounted for as dropped (retry off). Correspondence as for C07, with the oracle of C08 '
-          '(PoolError only when no worker is left alive and open; missing inputs were handed to a worker that died).'),
+    text=('Proof over the same Pool.run model: (1) PoolError is raised ONLY when no worker is left - for every configuration without a refusing '
+          'enqueue_fn, every environment script and idle-worker choice, when run() ends with PoolError every worker has been found dead and closed '
+          '(invariant J: while a retry is queued or the source is not known to be depleted no open worker sits idle; established by first_enqueue, '
+          'kept by handle_new_result / handle_death / the re-dispatch loop); (2) PoolError.partial_results and every normal return hold only genuine '
+          'results, at most one per input, and every input is answered or accounted for as dropped (retry off); (3) the statement (1) is refuted for a '
+          'refusing enqueue_fn (known finding). Correspondence as for C07, with the oracle of C08 (PoolError only when no worker is left alive and '
+          'open; missing inputs were handed to a worker that died).'),
     design='5/C08',
-    note=('"PoolError only if every worker is closed" is checked by the direct oracle on every explored schedule and is being proved (invariant J '
-          'in Pool/Inv.v); refusing enqueue_fn is a known finding. ' + COMMON_NOTE),
+    note=('"every input dropped with retry off was pending at, or being enqueued to, a worker at the step that declared it dead" is checked by the direct '
+          'oracle on every explored schedule, not stated as a theorem (the ghost field `lost` is only shown to account for the missing inputs). Refusing '
+          'enqueue_fn is a known finding with its own refutation theorem. ' + COMMON_NOTE),
     technique='machine-checked invariant proof (Coq) over a hand-written model + exhaustive small-scope differential correspondence',
 )
 
